@@ -41,6 +41,8 @@ def run(ctx):
         ctx.results.append(r)
     r4_order(ctx)
     r8_socket(ctx)
+    r5_copy_then_commit(ctx)
+    r3_byte_after_event(ctx)
     # R9 = what the shared-memory transport takes from the ring it is built on: margin, step and the consumer's order of stores
     # (C01.R3, R8, R9) - a message that was accepted is only intact if the ring keeps it so
     sub = type(ctx)(ctx.prog, ctx.prop, ctx.tier, ctx.depth)
@@ -635,3 +637,44 @@ def r8_socket(ctx):
                       'the caller has a torn message and cannot get the whole one any more' % (estr(rhs), '' if cut else ' without a test that it fits'))
     if n == 0:
         raise AnalysisBroken('qb_ipc_us_recv_at_most: no receive length taken from the message header')
+
+
+def r5_copy_then_commit(ctx):
+    """shm send: the message is in the chunk before the chunk is published - nothing is copied into a chunk after its commit (the
+    receiver may already be reading it)"""
+    n = 0
+    for name in ('qb_ipc_shm_send', 'qb_ipc_shm_sendv'):
+        f = ctx.prog.fn(name)
+        commits = list(f.calls('qb_rb_chunk_commit'))
+        copies = list(f.calls('memcpy'))
+        if not commits or not copies:
+            continue        # qb_ipc_shm_send hands the whole message to qb_rb_chunk_write
+        n += 1
+        late = [(c, m) for c in commits for m in copies if f.may_follow(c, m)]
+        ctx.check('R5', '%s:copied-before-committed' % name, not late, late[0][1] if late else commits[0],
+                  'every copy into the reserved chunk precedes its commit',
+                  'the chunk is committed before the message has been copied into it: a receiver that is already waiting reads the published chunk while the sender is '
+                  'still copying - the right length, stale or half-copied bytes')
+    if n == 0:
+        raise AnalysisBroken('ipc_shm.c: no send function copies into a reserved chunk')
+
+
+def r3_byte_after_event(ctx):
+    """client, shm: the wake-up byte of an event is taken off the socket only when the event itself was taken out of the ring - a receive
+    that fails (buffer too small, timeout) leaves both, so the descriptor stays readable while an event is unread"""
+    f = ctx.prog.fn('qb_ipcc_event_recv')
+    rbs = [st for st in f.events('STORE') if st.rhs is not None and callee_of(unwrap(st.rhs)) in ('qb_ipcc_funcs::recv', 'qb_ipc_funcs::recv') and 'event' in estr(st.rhs)]
+    if not rbs:
+        rbs = [st for st in f.events('STORE') if st.rhs is not None and (callee_of(unwrap(st.rhs)) or '').endswith('::recv') and 'event' in estr(st.rhs)]
+    byt = [ev for ev in f.events() if (ev.kind == 'CALL' and ev.callee == 'qb_ipc_us_recv') and 'setup' in estr(ev.args[0])]
+    if len(rbs) != 1 or not byt:
+        raise AnalysisBroken('qb_ipcc_event_recv: ring receives=%d byte receives=%d' % (len(rbs), len(byt)))
+    sz = estr(rbs[0].lhs)
+    for b in byt:
+        def got(at, fb):
+            return at.ls == sz and ((at.op == '>' and at.rc == 0) or (at.op == '>=' and at.rc == 1))
+        ok = f.may_follow(rbs[0], b) and not f.may_follow(b, rbs[0]) and f.uncut_path(b, got, start=('after', rbs[0])) is None
+        ctx.check('R3', 'event_recv:byte-taken-only-with-the-event', ok, b,
+                  'the wake-up byte is received only after the ring receive returned a message',
+                  'the wake-up byte is taken off the socket although the event may still be in the ring (before the ring receive, or whatever it returned): after a receive into '
+                  'a buffer that is too small, or one that timed out, the event is unread and the descriptor no longer readable')
